@@ -621,6 +621,19 @@ func (c *ctx) classify(n ast.Node) (hot, what string) {
 					}
 				}
 			}
+			// any operation of package sync / sync/atomic, whatever it is rooted at: the instants
+			// around Lock/Unlock/Store/Put are where atomicity windows open and close
+			if se, ok := v.Fun.(*ast.SelectorExpr); ok {
+				if sel, ok := c.pkg.TypesInfo.Selections[se]; ok && sel.Kind() == types.MethodVal {
+					if fn, ok := sel.Obj().(*types.Func); ok && fn.Pkg() != nil && (fn.Pkg().Path() == "sync" || fn.Pkg().Path() == "sync/atomic") {
+						set("w", "sync."+se.Sel.Name+"()")
+					}
+				} else if id, ok := se.X.(*ast.Ident); ok {
+					if pn, ok := c.pkg.TypesInfo.Uses[id].(*types.PkgName); ok && (pn.Imported().Path() == "sync/atomic" || pn.Imported().Path() == "sync") {
+						set("w", pn.Imported().Path()+"."+se.Sel.Name+"()")
+					}
+				}
+			}
 			// a reference to a candidate handed to any call
 			for _, a := range v.Args {
 				r := c.rootOf(a)
